@@ -657,8 +657,14 @@ func judgeCache(w *cacheWorld, res *Result, snaps []*cacheSnapshot) {
 		if e.Op.Kind == "put" && e.Done && e.Err != nil {
 			res.Probes["failed_store"]++
 		}
-		if e.Op.Kind == "destroy" && e.RetStep != e.CallStep {
-			res.violate("C14.c", "destroy-blocked", "Destroy did not return in the step it was invoked (steps %d..%d)", e.CallStep, e.RetStep)
+		if e.Op.Kind == "destroy" {
+			// "stopping the cache never blocks": Destroy may take (briefly held) locks, so it can span
+			// several scheduler steps; what must not happen is that it never returns
+			if !e.Done {
+				res.violate("C14.c", "destroy-never-returned", "Destroy was invoked at step %d and had not returned when the run ended [%s]", e.CallStep, sig)
+			} else {
+				res.Probes["destroy_returned"]++
+			}
 		}
 	}
 	if metrics.Global.Cache.CacheEvictions.Get() > 0 {
